@@ -2,7 +2,7 @@
 # usage: tools_detect_matrix.sh <name> <patch>  -> prints "DETECT <name> <ids with rc=1> | ERR <ids with rc=2>"
 NAME=$1; P=$2
 D=$(mktemp -d /dev/shm/detXXXX)
-cp -r /repo/eliot $D/ && (cd $D && patch -p1 -s < $P) || { echo "DETECT $NAME PATCHFAIL"; rm -rf $D; exit 0; }
+cp -r /repo/eliot /repo/docs /repo/README.rst /repo/setup.py $D/ && (cd $D && patch -p1 -s < $P) || { echo "DETECT $NAME PATCHFAIL"; rm -rf $D; exit 0; }
 V=""; E=""
 for i in C01 C02 C03 C04 C05 C06 C07 C08 C09 C10 C11 C12 C13 C14 C15 C16 C17 C18 C19 C20; do
   (cd /verif && ./bin/check $i quick --root $D --out $D/ev >/dev/null 2>&1); rc=$?
